@@ -564,6 +564,9 @@ def run(ctx):
             grid = grid[: (3 if ctx.quick else 6)]  # builtin bcrypt ~100 ms per hash
             allp = e1_passwords(True)
             pws = allp[: (5 if ctx.quick else 8)] + [t for t in allp if "_tail_" in t[0]]
+            # around the 72 bytes the key schedule reads (the terminator of the 2a/2b/2y variants is byte 72 of a
+            # 71-byte password): every length 69..73, as text and as non-UTF-8 bytes
+            pws += [(f"key{L}", "k" * L) for L in (69, 70, 71, 72, 73)] + [(f"key{L}_nonutf8", b"\xfe" * L) for L in (70, 71, 72)]
         else:
             if ctx.quick:
                 grid = grid[:: max(1, len(grid) // 8)][:8]
